@@ -904,12 +904,16 @@ def c20_run(ctx):
             warnings.filters.pop(0) if warnings.filters and warnings.filters[0][2] is RuntimeWarning and warnings.filters[0][0] == "error" else None
             numpy.seterr(**old)
     m1 = module_state()
-    for k in sorted(set(m0) & set(m1)):
-        if m0[k] != m1[k]:
-            problems.append((f"module-state:{k}", f"module-level container {k} changed while the catalogue ran: {m0[k]} -> {m1[k]}"))
+    changed_state = [f"{k}: {m0[k]} -> {m1[k]}" for k in sorted(set(m0) & set(m1)) if m0[k] != m1[k]]
     # history independence: the catalogue run forwards and backwards in two FRESH interpreters gives the same result for every call
     hist = history_probe(ctx.seed, ctx.tier)
     problems += hist
+    # a module-level container that grows is only a VIOLATION together with an observable effect (a call whose result depends on what ran
+    # before): a pure memo table leaves results alone and is not process-wide state in the sense of the property; it is reported as a note
+    if changed_state and hist:
+        problems.append(("module-state:" + changed_state[0].split(":")[0], "module-level containers changed while the catalogue ran: " + "; ".join(changed_state)[:300]))
+    elif changed_state and hasattr(ctx, "notes"):
+        ctx.notes.append("module-level containers changed while the catalogue ran (no call result depends on it): " + "; ".join(changed_state)[:300])
     # a caller-owned behavior mapping handed to vector.Array must not be mutated
     b0 = dict(user_behavior)
     try:
